@@ -85,6 +85,10 @@ type recorder struct {
 	mu    sync.Mutex
 	calls []call
 	reply proto.Message
+	// replyFn, when set, lets the engine act as a handler that serves
+	// replies built from its own long-lived buffers / messages (returned as
+	// they are, not copied). A nil result falls back to the planted reply.
+	replyFn func(md protoreflect.MethodDescriptor, in proto.Message) proto.Message
 }
 
 func (rc *recorder) take() []call {
@@ -105,7 +109,13 @@ func (rc *recorder) Unary(ctx context.Context, md protoreflect.MethodDescriptor,
 	rc.mu.Lock()
 	rc.calls = append(rc.calls, call{method: vschema.FullMethod(md), msg: cloneMsg(in)})
 	rep := rc.reply
+	fn := rc.replyFn
 	rc.mu.Unlock()
+	if fn != nil {
+		if m := fn(md, in); m != nil {
+			return m, nil
+		}
+	}
 	if rep != nil && rep.ProtoReflect().Descriptor().FullName() == md.Output().FullName() {
 		// larking walks response_body with Mutable on the reply: hand out a copy
 		return cloneMsg(rep), nil
